@@ -27,14 +27,19 @@ def orders(rnd, df):
     return out
 
 
-def compare(run, df, date, base, label, perm, index=None):
+def compare(run, df, date, base, label, perm, index=None, rnd=None):
     d2 = df.iloc[perm].reset_index(drop=True)
+    data = d2
     if index is not None:
         d2.index = index
-    ok, res2 = run.attempt(f"simulate permuted population at {date} ({label})", popgen.simulate_all, d2, date,
-                           replay={"date": date, "data": popgen.frame_to_json(d2)})
+    if rnd is not None:  # a random equivalent presentation of the permuted table
+        label, data = popgen.represent(d2, rnd)
+    ok, res2 = run.attempt(f"simulate permuted population at {date} ({label})", popgen.simulate_all, data, date,
+                           replay={"date": date, "data": popgen.frame_to_json(d2), "presentation": label})
     if not ok:
         return
+    for c in d2.columns:  # the input columns are compared in their internal dtypes, not as presented
+        res2[c] = d2[c].to_numpy()
     r2 = meta.by_pid(res2.reset_index(drop=True), d2.reset_index(drop=True))
     bad = meta.diff_columns(base, r2, check_dtype=True)
     run.case({"date": date, "perm": perm, "n": len(df), "label": label, "pop": common.digest(popgen.frame_to_json(df))})
@@ -59,7 +64,8 @@ def run(tier: str) -> int:
     quick = tier == "quick"
     r.rule = ("random valid populations (1–5 clusters of all structure kinds, sparse shuffled ids, incomes at statutory "
               "thresholds ± 1 cent) × adversarial row orders (reversed, every row first, youngest first, random) × index "
-              "labellings (strings, duplicates, shuffled ints); ALL nodes of the default graph compared by p_id: values with "
+              "labellings (strings, duplicates, shuffled ints) and random equivalent presentations (int columns as whole floats, "
+              "bool columns as 0/1, any index, DataFrame or dict of Series); ALL nodes of the default graph compared by p_id: values with "
               "2^-40 relative tolerance, dtypes exactly, id columns as partitions. distinct = (population, permutation).")
     common.build_and_audit(r, ["C01"], leanchecker=not quick)
     rnd = common.rng("C01")
@@ -82,6 +88,8 @@ def run(tier: str) -> int:
             compare(r, df, date, base, "string index labels", list(range(n)), index=[f"r{i}" for i in range(n)])
             compare(r, df, date, base, "duplicate index labels", rnd.sample(range(n), n), index=[0] * n)
             compare(r, df, date, base, "shuffled int index", rnd.sample(range(n), n), index=rnd.sample(range(100, 100 + n), n))
+            for _ in range(2 if quick else 4):
+                compare(r, df, date, base, "presentation", rnd.sample(range(n), n), rnd=rnd)
             r.sample({"date": date, "kinds": kinds, "rows": n, "orders": [o[0] for o in os_]}, limit=3)
     return r.finish()
 
